@@ -10,7 +10,8 @@ fn open_out(job: &Value, profile: &str) -> Out {
     let hb = job["hb"].as_str().map(|p| std::fs::OpenOptions::new().create(true).write(true).open(p).unwrap());
     let unspec = job["unspec"].as_str().map(|p| std::io::BufWriter::new(std::fs::OpenOptions::new().create(true).append(true).open(p).unwrap()));
     Out { findings: f("out"), events: f("events"), hb, unspec, stats: Stats::default(),
-          event_every: job["event_every"].as_u64().unwrap_or(0), event_cap: job["event_cap"].as_u64().unwrap_or(0), profile: profile.to_string() }
+          event_every: job["event_every"].as_u64().unwrap_or(0), event_cap: job["event_cap"].as_u64().unwrap_or(0), profile: profile.to_string(),
+          scope: Scope::from_job(job) }
 }
 
 fn write_stats(job: &Value, out: &mut Out, done: bool) {
@@ -83,7 +84,9 @@ fn run_replay(job: &Value) {
             if b.verdict != "accept" || !b.renderable || b.numnum { continue; }
             let nlit = b.kinds.iter().filter(|k| *k == "num").count();
             let lits = boundary_lits(&e);
-            let asgs = assignments(nlit, lits.len(), max_assign, &mut rng);
+            // composites (spec/MCCompose.tla) are many: a seeded sample of the assignments of each
+            let cap = if bv.get("comp").is_some() { job["compose_assign"].as_u64().unwrap_or(24) as usize } else { max_assign };
+            let asgs = assignments(nlit, lits.len(), cap, &mut rng);
             let bp: Vec<render::Policy> = asgs.into_iter().map(|a| { let mut p = render::Policy::reveal(&e, 0); p.lits = lits.clone(); p.fixed = a; p.sups = vec!["2".into(), "3".into(), "0".into(), "1".into(), "63".into(), "64".into()]; p }).collect();
             replay_base(&mut out, &v, &e, &b, &bp, &phs, min_ops);
             continue;
@@ -201,6 +204,26 @@ fn run_corpus(job: &Value) {
         for d in [1usize, 18, 19, 20, 28, 29, 30, 100, 400] { xs.push("9".repeat(d)); xs.push(format!("0.{}1", "0".repeat(d))); xs.push(format!("{}.5", "1".repeat(d))); xs.push(format!("0{}", "7".repeat(d))); }
         xs.extend(["1.2.3", "1..2", ".5.5", "1.", ".", "2pi", "1e5", "2i3", "i2", "π²", "3!!", "-2^2", "2^3!", "6/2(3)", "1 + 2\u{2003}* 3", "⌊2.5⌋⌈2.5⌉", "1<<63", "1<<64", "5%0", "1/0", "avg()", "min()", "max(1,2,)", "sgn(0)", "w(1)", "ilog(100,2)", "gcd(12,18)", "@@", "(@)", "@(2)"].iter().map(|s| s.to_string()));
         for x in xs { let _ = writeln!(w, "{}\t{}", e, x); n += 1; }
+    }
+    // every function, alias and postfix operator of every evaluator on signed arguments (a feature subset may select another
+    // implementation of a helper: each must behave as in the all-features build)
+    let args_all = ["-1", "-2", "-2.5", "-0.5", "0", "0.5", "1", "2.5", "3", "10", "-7", "100", "0.1", "25", "-1.5", "1000000", "-3", "4.5", "-0.25", "171"];
+    for e in ["f64", "i64", "dec", "cpx", "num"] {
+        let args: Vec<&str> = args_all.iter().cloned().filter(|a| e != "i64" || !a.contains('.')).collect();
+        for kw in v.all_keywords_of(e) {
+            match kw.cls.as_str() {
+                "f1" => for a in &args { let _ = writeln!(w, "{}\t{}({})", e, kw.name, a); n += 1; },
+                "f2" => for (i, a) in args.iter().enumerate() { let b = args[(i * 7 + 3) % args.len()]; let _ = writeln!(w, "{}\t{}({},{})", e, kw.name, a, b); n += 1; },
+                _ => for (i, a) in args.iter().enumerate() { let b = args[(i * 5 + 1) % args.len()]; let c = args[(i * 3 + 2) % args.len()];
+                                                             let _ = writeln!(w, "{}\t{}({},{},{})", e, kw.name, a, b, c); let _ = writeln!(w, "{}\t{}({})", e, kw.name, a); n += 2; },
+            }
+        }
+        for a in &args {
+            if v.has_kind(e, "bang") { let _ = writeln!(w, "{}\t({})!", e, a); n += 1; }
+            if v.has_kind(e, "deg") { let _ = writeln!(w, "{}\t({})°", e, a); let _ = writeln!(w, "{}\t({})rad", e, a); n += 2; }
+            if v.has_kind(e, "lf") { let _ = writeln!(w, "{}\t⌊{}⌋+⌈{}⌉", e, a, a); n += 1; }
+            let _ = writeln!(w, "{}\t({})^({})", e, a, args[(a.len() * 3) % args.len()]); n += 1;
+        }
     }
     for k in history::key_pool() { let _ = writeln!(w, "{}\t{}", k.e, k.expr); n += 1; }
     let _ = w.flush();
